@@ -39,6 +39,9 @@ func absentMemberOf(w *model.World, docURL, ref string, r *sim.RNG) string {
 	if _, isRef := m["$ref"]; isRef {
 		return ""
 	}
+	if r.Intn(3) == 0 {
+		return ref + "/" + []string{"nosuchmember", "propertie", "$defs"}[r.Intn(3)]
+	}
 	start := r.Intn(len(absentMembers))
 	for i := range absentMembers {
 		k := absentMembers[(start+i)%len(absentMembers)]
